@@ -127,6 +127,12 @@ theorem C01_decided_reported (hP : P.Valid) {σ : Sys P} (h : Reachable σ) {i :
   rw [← hval]
   exact hn'.dec hdec
 
+/-- the first observation point: whenever `Controller.ProcessMsg(m)` of operator i returns a decided message d, the value
+    d.fullData is a reported decision of the resulting state (so `C01_agreement` covers every returned decision) -/
+theorem C01_returned_reported (σ : Sys P) (i : Op P) (m d : Msg)
+    (h : ((σ.ctrl i).processMsg (P.cfg i) m).res = .ok (some d)) : reported (step σ (.deliver i m)) i d.fullData :=
+  returned_reported σ i m d h
+
 /-- agreement on the instance states: two correct operators whose instances are decided hold the same decided value -/
 theorem C01_state_agreement (hP : P.Valid) {σ : Sys P} (h : Reachable σ) {i j : Op P} {v v' : Nat}
     (hi : P.honest i = true) (hj : P.honest j = true) (hv : decidedState σ i v) (hv' : decidedState σ j v') : v = v' :=
